@@ -106,6 +106,9 @@ def default_policy(caller, callee, depth):
         return True
     if callee.name.startswith('_') and not callee.name.startswith('__'):
         return True
+    if callee.cls is not None and (any(ast.unparse(d.func if isinstance(d, ast.Call) else d).split('.')[-1] == 'dataclass' for d in callee.cls.node.decorator_list)
+                                   or any(b.split('.')[-1] == 'NamedTuple' for b in callee.cls.base_names)) and not callee.name.startswith('__'):
+        return True            # methods of pure-data classes are part of the data's description
     if callee.cls is None and getattr(callee, 'parent', None) is None:
         # a module-level function that is one returned expression (a key formatter, a unit conversion) is read through like the expression it names
         body = callee.body()
@@ -214,6 +217,17 @@ class SymEx:
         for p in out:
             p.outer_env = outer_env
         return out
+
+    def _resolve_dyn(self, call_node, st):
+        """targets of a call, with self.method(...) resolved in the dynamic class of self when that is known"""
+        tg, how, layer = self.M.resolve_any(self.fn, call_node, self.tenv())
+        f = call_node.func
+        dyn = self.dyn.get(len(self.frames))
+        if dyn is not None and isinstance(f, ast.Attribute) and isinstance(f.value, ast.Name) and f.value.id == 'self':
+            m = dyn.lookup(f.attr)
+            if m is not None and not m.is_property:
+                tg = [m]
+        return tg
 
     def _ctor_tables(self, cls):
         cache = self.M.__dict__.setdefault('_ctor_tables_cache', {})
@@ -326,7 +340,7 @@ class SymEx:
             if isinstance(s.value, ast.Constant):
                 return [(st, None)]
             if isinstance(s.value, ast.YieldFrom) and isinstance(s.value.value, ast.Call):
-                tg, how, layer = self.M.resolve_any(self.fn, s.value.value, self.tenv())
+                tg = self._resolve_dyn(s.value.value, st)
                 if len(tg) == 1 and _is_generator(tg[0]):
                     return [(x, None) for x, _ in self.ev(s.value, st)]
             if isinstance(s.value, (ast.Yield, ast.YieldFrom)):
@@ -572,7 +586,7 @@ class SymEx:
         if is_for and isinstance(s.iter, ast.Call) and len(s.body) == 1 and isinstance(s.body[0], ast.Expr) and isinstance(s.body[0].value, ast.Yield) \
                 and isinstance(s.target, ast.Name) and isinstance(s.body[0].value.value, ast.Name) and s.body[0].value.value.id == s.target.id and not s.orelse:
             # for v in g(...): yield v   ==   yield from g(...)
-            tg, how, layer = self.M.resolve_any(self.fn, s.iter, self.tenv())
+            tg = self._resolve_dyn(s.iter, st)
             if len(tg) == 1 and _is_generator(tg[0]):
                 return [(x, None) for x, v in self.ev(ast.copy_location(ast.YieldFrom(value=s.iter), s), st)]
         heads0 = None
@@ -1259,7 +1273,7 @@ class SymEx:
             return self.ev(e.value, st)
         if isinstance(e, ast.YieldFrom) and isinstance(e.value, ast.Call):
             # `yield from g(...)` where g is a generator function of the package: g's yields are this function's yields, in place
-            tg, how, layer = self.M.resolve_any(self.fn, e.value, self.tenv())
+            tg = self._resolve_dyn(e.value, st)
             if len(tg) == 1 and _is_generator(tg[0]) and not any(fr.qn == tg[0].qn for fr in self.frames) and not self.suppress:
                 saved = self.policy
                 self.policy = lambda a, b, d, _t=tg[0], _p=saved: True if b is _t else _p(a, b, d)
